@@ -59,7 +59,7 @@ def frame_cases(tier: str, rng: random.Random) -> List[Dict[str, Any]]:
     # the link is ahead of the program: every response of the request is already waiting when the subroutine starts
     for n in (3, 4):
         tuples = list(itertools.product(range(4), repeat=n))
-        for bells in rng.sample(tuples, 24 if tier == "quick" else 120):
+        for bells in rng.sample(tuples, min(len(tuples), 24 if tier == "quick" else 120)):
             out.append(dict(kind="frame", variant="post_h", nv=False, role="recv", expect=True, n=n, bells=list(bells), by=0, early=True))
     # a request with a fidelity constraint whose first attempt is rejected (its last pair took too long): the pairs of the
     # rejected attempt are discarded, the pairs of the second attempt (pair numbers n..2n-1) are the ones that count
